@@ -193,6 +193,51 @@ def gen_pair_linear(rng):
     return gd, gs, gen_spec(rng, NYd, NXd), gen_spec(rng, NYs, NXs)
 
 
+def gen_pair_nearint(rng):
+    """same-CRS north-up/mirrored pairs whose resolution ratio along ONE axis is within 1e-7..1e-3 of an integer or
+    of 1/integer (inside and outside the 1e-6 scale-snapping tolerance), rasters thousands of pixels long on that axis
+    with tiles of 256..1000 pixels; the other axis is short with an exact ratio"""
+    axis = rng.choice(["x", "y"])
+    n = rng.choice([1, 1, 2, 3])
+    eps = rng.choice([3e-7, 2e-6, 1e-5, 1e-4, 4e-4, 9e-4]) * rng.choice([-1, 1])
+    if rng.random() < 0.6:
+        ratio = n + eps                      # destination pixels are ~n source pixels
+    else:
+        ratio = 1.0 / (n + eps)              # ~n destination pixels per source pixel
+    rs = rng.choice([10.0, 30.0, 0.25])
+    Nd_long = rng.randint(2000, 9000)
+    Ns_long = int(Nd_long * ratio) + rng.randint(-300, 600)
+    Ns_long = max(Ns_long, 600)
+    aligned = rng.random() < 0.6     # tile edges of both rasters (nearly) coincide: sliver overlaps grow along the raster
+    shift_long = 0 if aligned else rng.choice([0, 0.5, -17, 250, 0.0004])
+    k = rng.choice([1, 1, 2])
+    Nd_short = rng.randint(80, 400)
+    Ns_short = Nd_short * k + rng.randint(0, 60)
+    shift_short = rng.choice([0, 0, 3, 0.5])
+    sgn_l, sgn_s = rng.choice([1, -1]), rng.choice([1, -1])
+    o_l, o_s = float(rng.randint(-5000, 5000) * 10), float(rng.randint(-5000, 5000) * 10)
+    src_long = (sgn_l * rs, o_l, Ns_long)
+    dst_long = (sgn_l * rs * ratio, o_l + shift_long * sgn_l * rs, Nd_long)
+    src_short = (sgn_s * rs, o_s, Ns_short)
+    dst_short = (sgn_s * rs * k, o_s + shift_short * sgn_s * rs, Nd_short)
+    tl_d, tl_s = rng.choice([256, 500, 512, 1000]), rng.choice([256, 500, 512, 1000])
+    if aligned:
+        tl_d = rng.choice([256, 300, 500])
+        tl_s = tl_d * n if ratio > 0.75 else tl_d
+        if ratio <= 0.75:
+            tl_d = tl_s * n
+    ts_d, ts_s = rng.choice([128, 256, 512]), rng.choice([128, 256, 512])
+    if axis == "x":
+        gs = (src_short[2], src_long[2], CRS, src_long[0], 0.0, src_long[1], 0.0, src_short[0], src_short[1])
+        gd = (dst_short[2], dst_long[2], CRS, dst_long[0], 0.0, dst_long[1], 0.0, dst_short[0], dst_short[1])
+        sd, ss = ("reg", ts_d, tl_d), ("reg", ts_s, tl_s)
+    else:
+        gs = (src_long[2], src_short[2], CRS, src_short[0], 0.0, src_short[1], 0.0, src_long[0], src_long[1])
+        gd = (dst_long[2], dst_short[2], CRS, dst_short[0], 0.0, dst_short[1], 0.0, dst_long[0], dst_long[1])
+        sd, ss = ("reg", tl_d, ts_d), ("reg", tl_s, ts_s)
+    return gd, gs, sd, ss
+
+
 def gen_pair_general(rng, gi, exact_rot=True):
     """pairs that take the general path: rotated same-CRS source or EPSG:4326 source; every combination of
     resolution signs (north-up, mirrored in x, in y, in both); overlapping, near and far apart"""
@@ -226,6 +271,46 @@ REGIONAL = [
     ("epsg:3857", (-15000000, 15000000), (-10000000, 12000000)),   # Web Mercator up to ~70 degrees
     ("epsg:32755", (200000, 800000), (2000000, 9500000)),          # UTM 55S
 ]
+
+
+CURVED = [
+    # (crs, x range, y range): boxes in projections whose x=const / y=const grid lines curve strongly in lon/lat;
+    # kept to one side of the pole / central meridian so that footprints neither contain the pole nor cross +-180
+    ("epsg:3031", (300000, 3000000), (-2500000, 2500000)),     # Antarctic polar stereographic, beside the pole
+    ("epsg:3413", (300000, 2500000), (-2500000, -300000)),     # Arctic polar stereographic
+    ("epsg:3035", (2500000, 6500000), (1500000, 5200000)),     # European LAEA up to high latitudes
+    ("epsg:32633", (-300000, 1300000), (5500000, 8500000)),    # UTM 33N far outside its zone at high latitude
+]
+
+
+def gen_pair_curved(rng):
+    """regional raster in a projection with strongly curved grid lines against an EPSG:4326 grid covering the same
+    area (tiles of a few degrees); returned as (lon/lat grid, projected raster, tiles, tiles)"""
+    from pyproj import Transformer
+    crs, xr, yr = rng.choice(CURVED + CURVED[:2])      # polar stereographic twice as often
+    NYp, NXp = rng.randint(40, 200), rng.randint(40, 200)
+    frac = rng.choice([0.3, 0.6, 1.0])
+    W, H = (xr[1] - xr[0]) * frac, (yr[1] - yr[0]) * frac
+    px = float(max(1, int(min(W / NXp, H / NYp))))
+    x0 = float(int(rng.uniform(xr[0], xr[1] - px * NXp)))
+    y1 = float(int(rng.uniform(yr[0] + px * NYp, yr[1])))
+    sxp, syp = rng.choice([(1, -1), (1, -1), (-1, -1), (1, 1)])
+    gp = (NYp, NXp, crs, sxp * px, 0.0, x0 if sxp > 0 else x0 + px * NXp, 0.0, syp * px, y1 if syp < 0 else y1 - px * NYp)
+    tr = Transformer.from_crs(crs, "epsg:4326", always_xy=True)
+    import numpy as np
+    ex = np.linspace(x0, x0 + px * NXp, 30)
+    ey = np.linspace(y1 - px * NYp, y1, 30)
+    bx = np.concatenate([ex, ex, np.full(30, ex[0]), np.full(30, ex[-1])])
+    by = np.concatenate([np.full(30, ey[0]), np.full(30, ey[-1]), ey, ey])
+    lon, lat = tr.transform(bx, by)
+    r = rng.choice([0.25, 0.5, 1.0])
+    lon0, lon1 = r * int(min(lon) / r - rng.randint(0, 6)), r * int(max(lon) / r + rng.randint(1, 6))
+    lat0, lat1 = max(-90.0, r * int(min(lat) / r - rng.randint(1, 6))), min(90.0, r * int(max(lat) / r + rng.randint(1, 6)))
+    NYg, NXg = int(round((lat1 - lat0) / r)), int(round((lon1 - lon0) / r))
+    gg = (NYg, NXg, "epsg:4326", r, 0.0, float(lon0), 0.0, -r, float(lat1))
+    t = rng.choice([8, 10, 16, 20])
+    sp = ("reg", rng.choice([16, 25, 50]), rng.choice([16, 25, 50]))
+    return gg, gp, ("reg", t, t), sp
 
 
 def gen_pair_global(rng):
@@ -537,7 +622,10 @@ def p_linear(gd, gs, sd, ss):
     except Exception as e:
         return False, f"raised {type(e).__name__}: {e}"
     if A is not None and (F(A.a), F(A.c), F(A.e), F(A.f)) == (sx, tx, sy, ty):
-        delta = F(0)
+        # no snapping happened; products s*x+t are exact in binary64 only for short dyadic coefficients,
+        # otherwise allow for their rounding (a few ulp of a pixel coordinate)
+        short = all(v.denominator <= 2 ** 24 and abs(v.numerator) <= 2 ** 40 for v in (sx, tx, sy, ty))
+        delta = F(0) if short else F(1, 2 ** 30)
     else:   # snapped or rounded: translation moves < 1e-3, scale term < 1e-6 * extent (or the general path was taken)
         ext = max(gd[0], gd[1], gs[0], gs[1]) * max(abs(sx), abs(sy), 1)
         delta = F(1, 1000) + F(1, 10 ** 6) * ext * 2 + F(1, 10 ** 6)
@@ -556,17 +644,35 @@ def p_linear(gd, gs, sd, ss):
     edges = [(d, s) for d, l in graph.items() for s in l]
     if apart and edges:
         return False, f"rasters do not overlap (mapped destination x {float(fx0)}..{float(fx1)} y {float(fy0)}..{float(fy1)}, source {NXs}x{NYs}) but the graph has edges {edges[:6]}"
-    for d in all_idx(dst):
-        ry, rx = dst.roi[d]
-        mx0, mx1 = mapped(rx.start, rx.stop, sx, tx)
-        my0, my1 = mapped(ry.start, ry.stop, sy, ty)
-        for s in all_idx(src):
-            qy, qx = src.roi[s]
-            ovx = min(mx1, qx.stop) - max(mx0, qx.start)
-            ovy = min(my1, qy.stop) - max(my0, qy.start)
-            if ovx > 2 * delta and ovy > 2 * delta and s not in graph.get(d, []):
-                return False, (f"destination tile {d} maps to x {float(mx0)}..{float(mx1)} y {float(my0)}..{float(my1)}; source tile {s} "
-                               f"(cols {qx.start}:{qx.stop} rows {qy.start}:{qy.stop}) overlaps it by ({float(ovx)}, {float(ovy)}) but is not listed: {graph.get(d)}")
+    # the map is separable: overlapping (destination, source) index pairs per axis, then their product
+    ny_d, nx_d = dst.shape.yx
+    ny_s, nx_s = src.shape.yx
+    drows = [dst.roi[(i, 0)][0] for i in range(ny_d)]
+    dcols = [dst.roi[(0, i)][1] for i in range(nx_d)]
+    srows = [src.roi[(i, 0)][0] for i in range(ny_s)]
+    scols = [src.roi[(0, i)][1] for i in range(nx_s)]
+
+    def axis_pairs(dd, qq, s_, t_):
+        out_ = []
+        for di, r in enumerate(dd):
+            m0, m1 = mapped(r.start, r.stop, s_, t_)
+            for si, q in enumerate(qq):
+                ov = min(m1, q.stop) - max(m0, q.start)
+                if ov > 2 * delta and q.stop > q.start and r.stop > r.start:
+                    out_.append((di, si, ov, (m0, m1)))
+        return out_
+
+    ypairs = axis_pairs(drows, srows, sy, ty)
+    xpairs = axis_pairs(dcols, scols, sx, tx)
+    listed = {d: set(map(tuple, l)) for d, l in graph.items()}
+    for (dy, sy_, ovy, my) in ypairs:
+        for (dx, sx_, ovx, mx) in xpairs:
+            if (sy_, sx_) not in listed.get((dy, dx), ()):
+                qy, qx = srows[sy_], scols[sx_]
+                return False, (f"destination tile {(dy, dx)} maps to x {float(mx[0])}..{float(mx[1])} y {float(my[0])}..{float(my[1])} (exact "
+                               f"pixel-to-pixel map); source tile {(sy_, sx_)} (cols {qx.start}:{qx.stop} rows {qy.start}:{qy.stop}) overlaps it by "
+                               f"({float(ovx)}, {float(ovy)}) px, more than the documented snapping tolerance 2*delta={float(2 * delta)}, "
+                               f"but is not listed: {sorted(listed.get((dy, dx), ()))[:8]}")
     return True, f"{len(edges)} edges, delta={float(delta)}"
 
 
@@ -667,6 +773,58 @@ def _chord_class(gd, dst, d, gs, src, s_, frac):
     return cp.intersection(tp).area < 0.5 * frac * tp.area
 
 
+def _point_witness(gd, dst, gs, src, graph):
+    """A point at least one pixel inside a source tile whose image (pyproj, called directly) lies at least one pixel
+    inside a destination tile witnesses that the two tiles overlap by more than a sliver: the pair must be listed.
+    Returns ((is_chord_class, message) | None, number of witnessed pairs)."""
+    import numpy as np
+    from affine import Affine
+    from pyproj import Transformer
+    from shapely.geometry import Point, Polygon
+    As, Ad = Affine(*gs[3:9]), Affine(*gd[3:9])
+    Adi = ~Ad
+    fwd = None if gs[2] == gd[2] else Transformer.from_crs(gs[2], gd[2], always_xy=True)
+    ny_d, nx_d = dst.shape.yx
+    oy = np.array([dst.roi[(i, 0)][0].start for i in range(ny_d)] + [dst.roi[(ny_d - 1, 0)][0].stop])
+    ox = np.array([dst.roi[(0, i)][1].start for i in range(nx_d)] + [dst.roi[(0, nx_d - 1)][1].stop])
+    listed = {d: set(map(tuple, l)) for d, l in graph.items()}
+    pairs = set()
+    first = None
+    for s_ in all_idx(src):
+        ry, rx = src.roi[s_]
+        if ry.stop - ry.start < 3 or rx.stop - rx.start < 3:
+            continue
+        uu, vv = np.meshgrid(np.linspace(rx.start + 1, rx.stop - 1, 6), np.linspace(ry.start + 1, ry.stop - 1, 6))
+        uu, vv = uu.ravel(), vv.ravel()
+        X, Y = As.a * uu + As.b * vv + As.c, As.d * uu + As.e * vv + As.f
+        X2, Y2 = (X, Y) if fwd is None else fwd.transform(X, Y)
+        P, Q = Adi.a * X2 + Adi.b * Y2 + Adi.c, Adi.d * X2 + Adi.e * Y2 + Adi.f
+        for k in range(len(P)):
+            p, q = P[k], Q[k]
+            if not (np.isfinite(p) and np.isfinite(q)) or not (1 <= p <= gd[1] - 1 and 1 <= q <= gd[0] - 1):
+                continue
+            ix, iy = int(np.searchsorted(ox, p, "right")) - 1, int(np.searchsorted(oy, q, "right")) - 1
+            if min(p - ox[ix], ox[ix + 1] - p, q - oy[iy], oy[iy + 1] - q) < 1:
+                continue
+            d = (iy, ix)
+            pairs.add((d, s_))
+            if s_ in listed.get(d, ()) or first is not None and not first[0]:
+                continue
+            # chord class of the open finding: the point is outside the four-corner image of the destination tile
+            dy, dx = dst.roi[d]
+            cs = [Ad * c for c in [(dx.start, dy.start), (dx.stop, dy.start), (dx.stop, dy.stop), (dx.start, dy.stop)]]
+            if fwd is not None:
+                cs = [Transformer.from_crs(gd[2], gs[2], always_xy=True).transform(*c) for c in cs]
+            ok_c = all(np.isfinite(v) for c in cs for v in c)
+            cp = Polygon(cs) if ok_c else None
+            is_chord = cp is None or not cp.is_valid or not cp.buffer(-0.5 * min(abs(gs[3]), abs(gs[7]))).contains(Point(X[k], Y[k]))
+            msg = (f"source pixel position ({uu[k]:.2f},{vv[k]:.2f}) inside source tile {s_} lands (pyproj) at destination position "
+                   f"({p:.2f},{q:.2f}), more than a pixel inside destination tile {d}, but the source tile is not listed: {sorted(listed.get(d, ()))[:8]}")
+            if first is None or (first[0] and not is_chord):
+                first = (is_chord, msg)
+    return first, len(pairs)
+
+
 def p_crossref(gd, gs, sd, ss):
     """different-CRS pair (testing of the oracle composition): never an error; every source tile whose footprint
     overlaps a destination tile's footprint by more than a sliver (4 pixels of the finer grid) is listed.
@@ -695,9 +853,16 @@ def p_crossref(gd, gs, sd, ss):
                         chord = chord or msg
                     else:
                         return False, msg
+    # second, independent witness: interior points of source tiles sent through pyproj into destination pixels
+    miss, nw = _point_witness(gd, dst, gs, src, graph)
+    if miss is not None:
+        is_chord, msg = miss
+        if not is_chord:
+            return False, msg
+        chord = chord or msg
     if chord:
         return False, "[chord] " + chord
-    return True, f"{n} overlapping tile pairs, all listed"
+    return True, f"{n} overlapping tile pairs (lon/lat footprints) and {nw} point-witnessed pairs, all listed"
 
 
 PREDICATES = {"locate": p_locate, "pixquery": p_pixquery, "geomquery": p_geomquery, "linear": p_linear,
@@ -756,6 +921,10 @@ def search(out, tier):
         k = rng.choice([3, 5, 6, 7, 10])
         gs = (gs[0], gs[1], gs[2], gs[3] * k, 0.0, gs[5], 0.0, gs[7] * k, gs[8])
         run("linear", gd, gs, sd, ss)
+    # near-integer resolution ratios on one axis, long rasters: the snapping tolerances (1e-3 translation, 1e-6 scale)
+    # bound how far the affine used may drift from the exact map
+    for _ in range(80 if not big else 600):
+        run("linear", *gen_pair_nearint(rng))
     for gi in range(50 if not big else 300):
         gd, gs, sd, ss = gen_pair_general(rng, gi, exact_rot=False)
         run("general", gd, gs, sd, ss)
@@ -769,6 +938,12 @@ def search(out, tier):
     for gi in range(10 if not big else 80):
         gd, gs, sd, ss = gen_pair_general(rng, 1, exact_rot=False)
         run("crossref", gd, gs, sd, ss)
+    # projections with strongly curved grid lines (polar stereographic, high-latitude LAEA, UTM far outside its zone)
+    # against lon/lat grids of the same area, both directions
+    for gi in range(12 if not big else 80):
+        gg, gp, sg, sp = gen_pair_curved(rng)
+        run("crossref", gg, gp, sg, sp)
+        run("crossref", gp, gg, sp, sg)
 
 
 # ---------------------------------------------------------------- entry points
@@ -781,7 +956,11 @@ def run(out, tier, scratch):
                 "same-CRS pairs (aligned, shifted by 1/2, 1/4, 3/8 and by amounts inside/outside the 1e-3 snapping tolerance, scaled "
                 "1/4..5, mirrored, touching, disjoint) fed with the affine returned by the real _check_linear; general-path graphs "
                 "(rotated and EPSG:4326 sources incl. disjoint ones) with oracle tables; search only (predicate crossref): whole-globe / hemisphere EPSG:4326 rasters against regional rasters "
-                "inside the valid area of UTM 33N, UTM 55S, Australian Albers and Web Mercator, both directions.  non-trivial = successful call with a "
+                "inside the valid area of UTM 33N, UTM 55S, Australian Albers and Web Mercator, and rasters in projections with strongly curved "
+                "grid lines (EPSG:3031, 3413, 3035, UTM far outside its zone) against lon/lat grids, both directions, judged by lon/lat footprint "
+                "overlap and by interior points sent through pyproj; same-CRS pairs with resolution ratios within 1e-7..1e-3 of n or 1/n on "
+                "one axis and 2000-9000 pixels along it (tiles 256-1000) against the exact Fraction overlap with the documented snapping "
+                "tolerances (1e-3 translation, 1e-6 scale).  non-trivial = successful call with a "
                 "non-default result; distinct = distinct canonical (operation, arguments).  search: brute-force exact references")
     out.assumptions += [
         "exact-rational model of binary64 (linear pairs are generated so that the pixel-to-pixel affine is exact; pairs whose "
